@@ -597,9 +597,9 @@ class RecModule:
     def __getattr__(self, name):
         return getattr(np, name)
 
-    def percentile(self, a, p, *args, **kw):
-        self.p = np.array(p, dtype=np.float64)
-        self.q = np.percentile(a, p, *args, **kw)
+    def percentile(self, a, q, *args, **kw):
+        self.p = np.array(q, dtype=np.float64)
+        self.q = np.percentile(a, q, *args, **kw)
         return self.q
 
 
